@@ -213,3 +213,68 @@ Fixpoint lex_ltb (x y : list Z) : bool :=
   | a :: s, b :: t => (a <? b)%Z || ((a =? b)%Z && lex_ltb s t)
   end.
 Definition lex_eqb : list Z -> list Z -> bool := list_eqb Z.eqb.
+
+(* ------------------------------------------------- mixed signedness at 64 bits (round 2b)
+   A uint64 array against a signed-integer array (or the reverse): numpy has no common integer
+   type and np.searchsorted promotes BOTH arrays to float64, so the binary search compares the
+   binary64 roundings of the integers (round to nearest, ties to even, 53 significant bits).
+   np.unique, np.argsort (one array each), arr2.max() > arr1.max() (numpy scalars) and the
+   elementwise == (numpy >= 1.25/2.x compares mixed-sign integers exactly) stay exact. *)
+Definition round53 (x : Z) : Z :=
+  let a := Z.abs x in
+  if (a <? 2 ^ 53)%Z then x
+  else
+    let e := (Z.log2 a - 52)%Z in
+    let p := (2 ^ e)%Z in
+    let q := (a / p)%Z in
+    let r := (a mod p)%Z in
+    let h := (p / 2)%Z in
+    let q' := if (h <? r)%Z || ((r =? h)%Z && Z.odd q) then (q + 1)%Z else q in
+    (Z.sgn x * (q' * p))%Z.
+
+Section Promoted.
+  Variable A : Type.
+  Variable sltb : A -> A -> bool.    (* the order np.searchsorted compares with *)
+  Variable ltb : A -> A -> bool.     (* the order of the dtype (argsort, max) *)
+  Variable eqb : A -> A -> bool.
+
+  (* match_with with the search order separated; match_with2 ltb ltb eqb IS match_with ltb eqb *)
+  Definition match_with2 (is_string presorted : bool) (st1 : list nat) (a1 a2 : list A)
+    : result (list nat * list nat) :=
+    match a1 with
+    | [] => Err EIndex
+    | d1 :: _ =>
+      match a2 with
+      | [] => Err EValue
+      | d2 :: _ =>
+        if negb (nodupb eqb a1) then Err EValue
+        else
+          let n := length a1 in
+          do view <- (if presorted then Ok a1 else ogather a1 st1);
+          let sub1 := map (count_lt sltb view) a2 in
+          let sub1 := if is_string || ltb (maxl ltb d1 a1) (maxl ltb d2 a2)
+                      then map (clamp_hi n) sub1 else sub1 in
+          if presorted then
+            do vals <- ogather a1 sub1;
+            let sub2 := where_ (eq_mask eqb vals a2) in
+            do o1 <- ogather sub1 sub2;
+            Ok (o1, sub2)
+          else
+            do i1 <- ogather st1 sub1;
+            do vals <- ogather a1 i1;
+            let sub2 := where_ (eq_mask eqb vals a2) in
+            do t <- ogather sub1 sub2;
+            do o1 <- ogather st1 t;
+            Ok (o1, sub2)
+      end
+    end.
+End Promoted.
+Arguments match_with2 {A}.
+
+Definition rltb (x y : Z) : bool := (round53 x <? round53 y)%Z.
+
+(* match / match_multi on integer arrays; [mixed]: one array is uint64, the other a signed kind *)
+Definition match_z (mixed is_string presorted : bool) (a1 a2 : list Z) : result (list nat * list nat) :=
+  if mixed then match_with2 rltb zltb zeqb is_string presorted (argsort zltb a1) a1 a2
+  else match_ zltb zeqb is_string presorted a1 a2.
+Definition match_multi_z (mixed is_string presorted : bool) (a1 a2 : list Z) := match_z mixed is_string false a1 a2.
